@@ -117,6 +117,8 @@ func main() {
 		r.genC02(*seed, *ndb, *nq, *depth, only)
 	case "exec":
 		r.exec(*in, only)
+	case "c05":
+		r.genC05(*seed, *ndb, *nq, *depth, only)
 	case "c01":
 		r.genC01(*seed, *ndb, *nq, *depth, only, *variants)
 	default:
@@ -164,6 +166,18 @@ func (r *runner) exec(path string, only onlySet) {
 		case "db":
 			pending = &e
 			s = nil
+		case "tlp", "equiv":
+			if only.skip(e.ID) {
+				return nil
+			}
+			if s == nil {
+				if pending == nil {
+					return fmt.Errorf("event before db")
+				}
+				edb, s = setup(pending.Schema)
+				r.w.Write(dbEvent(pending.Schema))
+			}
+			r.reexecLaw(s, line)
 		case "q", "multi":
 			if only.skip(e.ID) {
 				return nil
@@ -273,4 +287,37 @@ func parseOnly(s string) onlySet {
 		}
 	}
 	return o
+}
+
+// reexecLaw re-runs a recorded tlp / equiv event from its SQL texts (the ASTs are kept as recorded).
+func (r *runner) reexecLaw(s *eng.Session, line []byte) {
+	var m map[string]json.RawMessage
+	if err := json.Unmarshal(line, &m); err != nil {
+		vio.Fatal("%v", err)
+	}
+	var sqls []string
+	json.Unmarshal(m["sqls"], &sqls)
+	var ress []*eng.Result
+	for _, q := range sqls {
+		res := s.Exec(q)
+		ress = append(ress, &res)
+		r.kinds[res.Kind]++
+	}
+	put := func(k string, v interface{}) {
+		b, _ := json.Marshal(v)
+		m[k] = b
+	}
+	var ev string
+	json.Unmarshal(m["ev"], &ev)
+	if ev == "tlp" && len(ress) == 5 {
+		put("all", ress[0])
+		put("t", ress[1])
+		put("f", ress[2])
+		put("n", ress[3])
+		put("sel", ress[4])
+	} else {
+		put("ress", ress)
+	}
+	r.w.Write(m)
+	r.rep.Cases++
 }
